@@ -1,0 +1,29 @@
+//go:build verif
+
+package report
+
+// Machine-checked contracts for package report (comment-only; see klog/contracts_verif.go).
+
+// Property C12: the bucket of a date under each aggregation is the hash of its calendar period (day, ISO week,
+// month, quarter, year). Together with the bucket lemmas of package period (two dates have the same hash exactly
+// when they lie in the same period) this makes groupByDate's groups the calendar periods.
+
+//@ func (*dayAggregator).DateHash
+//@ requires typeis(date, *klog.date)
+//@ ensures result == period.dd(date) + 64 * period.dm(date) + 64 * 32 * period.dy(date)
+
+//@ func (*weekAggregator).DateHash
+//@ requires typeis(date, *klog.date) && klog.ddn(date) - period.wk(klog.ddn(date)) + 3 >= 0
+//@ ensures result == klog.isoweek(klog.ddn(date)) + 128 * klog.isoyear(klog.ddn(date))
+
+//@ func (*monthAggregator).DateHash
+//@ requires typeis(date, *klog.date)
+//@ ensures result == period.dm(date) + 32 * period.dy(date)
+
+//@ func (*quarterAggregator).DateHash
+//@ requires typeis(date, *klog.date)
+//@ ensures result == period.qof(period.dm(date)) + 8 * period.dy(date)
+
+//@ func (*yearAggregator).DateHash
+//@ requires typeis(date, *klog.date)
+//@ ensures result == period.dy(date)
